@@ -59,6 +59,8 @@ def generate(ck):
                     continue  # the second configuration stops one level earlier
                 for seq in itertools.product(OPS, repeat=n):
                     descs.append({"cls": cls, "cfg": cfg, "seq": list(seq)})
+                    if cfg == 0 and 2 <= n <= L - 1 and seq[0].startswith("sim") and seq[-1] in ("rf", "rfd", "interp"):
+                        descs.append({"cls": cls, "cfg": cfg, "seq": list(seq), "tight": True, "nt_scale": 1})
     # the two-phase class (a SinglePhaseReservoir subclass with its own simulate signature) on a
     # from_table fluid: same alphabet, one level shorter
     for n in range(1, L):
@@ -89,6 +91,22 @@ def generate(ck):
             for seq in itertools.product(("simA", "oth", "rf", "rfd", "interp"), repeat=n):
                 if "oth" in seq and "simA" in seq and seq.index("simA") < len(seq) - 1 - seq[::-1].index("oth"):
                     descs.append({"cls": cls, "cfg": 0, "seq": list(seq)})
+    # stuttering callers: one call of a short history repeated 2, 3 or 8 times with the results thrown
+    # away (a fitting loop, a notebook cell run again): memory is recycled between the calls, so
+    # anything that recognises "the same array as before" by its address meets a different one there
+    for cls in ("ideal", "single"):
+        for n in (2, 3):
+            for base in itertools.product(("rf", "rfd", "interp"), repeat=n):
+                if len(set(base)) < 2:
+                    continue
+                for pos in range(n):
+                    for k in (2, 3, 8):
+                        if ck.tier == "quick" and (k == 3 or (n == 3 and pos == 0)):
+                            continue
+                        seq = ["simB", "simA"] + [o for j, o in enumerate(base) for _ in range(k if j == pos else 1)]
+                        descs.append({"cls": cls, "cfg": 0, "seq": seq, "stutter": k})
+                        descs.append({"cls": cls, "cfg": 0, "seq": seq, "stutter": k, "tight": True, "nt_scale": 1})
+                        descs.append({"cls": cls, "cfg": 0, "seq": seq, "stutter": k, "tight": True, "nt_scale": 10})
     # extension outside the property's alphabet
     ext_ops = ("simS", "simA", "simC", "rf", "interp")
     for n in range(2, L):
@@ -259,7 +277,54 @@ def run_case(ck, desc):
     return _run_case(ck, desc)
 
 
+def _tight_case(ck, desc):
+    """The history run the way ordinary code runs it: call after call, results thrown away, nothing
+    allocated or kept by the harness in between (so that the interpreter recycles addresses exactly as
+    it does for a caller). Only the end is judged: the interpolator's answers against a fresh object
+    that got the latest simulation and the recovery calls after it ONCE each (repeating a call changes
+    nothing, so the stuttered and the plain history must end alike)."""
+    cls, cfg, seq = desc["cls"], desc["cfg"], desc["seq"]
+    c = CONFIGS[cfg]
+    scale = desc.get("nt_scale", 1)
+    grids = {g: _grid((c[g][0], c[g][1] * scale, c[g][2])) for g in ("A", "B", "C")}
+    obj = _fresh(cls, cfg)
+    calls = {
+        "simA": lambda o: o.simulate(grids["A"]),
+        "simB": lambda o: o.simulate(grids["B"]),
+        "simC": lambda o: o.simulate(grids["C"]),
+        "rf": lambda o: o.recovery_factor(),
+        "rfd": lambda o: o.recovery_factor(density=True),
+        "interp": lambda o: o.recovery_factor_interpolator(),
+    }
+    todo = [calls[op] for op in seq]
+    with np.errstate(all="ignore"), warnings.catch_warnings():
+        warnings.simplefilter("ignore")
+        for f in todo:
+            f(obj)
+        got = np.array(obj.recovery_factor_interpolator()(PROBE), dtype=float)
+        got_knots = np.array(obj.recovery_factor_interpolator()(np.asarray(obj.time, dtype=float)), dtype=float)
+        last = max(i for i, op in enumerate(seq) if op.startswith("sim"))
+        tail = [seq[last]]
+        for op in seq[last + 1 :]:
+            if op in ("rf", "rfd") and op != tail[-1]:
+                tail.append(op)
+        fresh = _fresh(cls, cfg)
+        for op in tail:
+            calls[op](fresh)
+        want = np.array(fresh.recovery_factor_interpolator()(PROBE), dtype=float)
+        want_knots = np.array(fresh.recovery_factor_interpolator()(np.asarray(fresh.time, dtype=float)), dtype=float)
+    ck.count("calls_logged", len(seq))
+    ck.count("tight_histories")
+    ck.count("fresh_replays")
+    ck.count("epilogue_interpolator_probes")
+    if not (_same(got, want) and _same(got_knots, want_knots)):
+        ck.violation("matches-fresh-object", {"differs": ["interpolator-after-history"], "history": seq, "run": "call after call, results not kept", "stamps": int(len(grids["A"])), "max_abs_diff_at_knots": float(np.max(np.abs(got_knots - want_knots))) if got_knots.shape == want_knots.shape else None}, desc)
+    return True, {"seq": seq}
+
+
 def _run_case(ck, desc):
+    if desc.get("tight"):
+        return _tight_case(ck, desc)
     cls, cfg, seq = desc["cls"], desc["cfg"], desc["seq"]
     obj = _fresh(cls, cfg)
     log = []
